@@ -126,6 +126,17 @@ class Iter:
         return "iter(%s%s)" % (fmt(self.src), "".join("." + o[0] for o in self.ops))
 
 
+class ChainIter:
+    """`a.chain(b)…`: the generic element comes from one of the parts (decided per path)."""
+    __slots__ = ("parts", "ops")
+
+    def __init__(self, parts, ops=()):
+        self.parts, self.ops = list(parts), tuple(ops)
+
+    def __repr__(self):
+        return "chain(%s)" % ", ".join(repr(p) for p in self.parts)
+
+
 UNIT = ()
 
 
@@ -149,6 +160,8 @@ def term(v):
         return ("list",) + tuple(term(x) for x in v)
     if isinstance(v, Iter):
         return ("iter", v.src) + tuple(o[0] for o in v.ops)
+    if isinstance(v, ChainIter):
+        return ("chain",) + tuple(term(p_) for p_ in v.parts)
     if isinstance(v, Clo):
         return ("closure", v.node.get("sp"))
     if isinstance(v, Ctor):
@@ -524,7 +537,7 @@ class Evaluator:
         return self.path.decide(("lt", ta, tb), [True, False])
 
     def has_sym(self, v):
-        if isinstance(v, (Sym, Iter, Clo)):
+        if isinstance(v, (Sym, Iter, Clo, ChainIter)):
             return True
         if isinstance(v, V):
             return any(self.has_sym(x) for x in v.fields)
@@ -943,7 +956,8 @@ class Evaluator:
                     continue
                 env.update(e2)
                 return self.ev(a["body"], env, depth)
-        raise Abort("no match arm applies")
+        # rustc guarantees exhaustiveness: reaching this point means the path's assumptions contradict each other
+        raise Infeasible()
 
     def ev_try(self, n, env, depth):
         sc = n["scrut"]
@@ -1014,6 +1028,36 @@ class Evaluator:
             return list(coll)
         if isinstance(coll, V) and coll.name in ("Some", "None"):
             return list(coll.fields)
+        if isinstance(coll, ChainIter):
+            flat = []
+            for p_ in coll.parts:
+                flat.extend(p_.parts if isinstance(p_, ChainIter) and not p_.ops else [p_])
+            if all(isinstance(p_, (list, tuple)) for p_ in flat):
+                items = [x for p_ in flat for x in p_]
+            else:
+                k = self.path.decide(("chain-pick", term(coll)), list(range(len(flat))) + ["none"])
+                items = [] if k == "none" else self.items_of(flat[k])
+            out = []
+            for x in items:
+                keep = True
+                for kind, f in coll.ops:
+                    if kind == "map":
+                        x = self.apply(f, [x], 0)
+                    elif kind == "filter":
+                        if not self.decide_bool(self.apply(f, [x], 0)):
+                            keep = False
+                            break
+                    elif kind == "filter_map":
+                        r = self.force(self.apply(f, [x], 0), ("Some", "None"))
+                        if r.name == "None":
+                            keep = False
+                            break
+                        x = r.fields[0]
+                    elif kind == "enumerate":
+                        x = (Sym(("pos", term(coll))), x)
+                if keep:
+                    out.append(x)
+            return out
         if isinstance(coll, Iter):
             src, ops = coll.src, coll.ops
         elif isinstance(coll, Sym):
@@ -1332,6 +1376,56 @@ class Evaluator:
             return NotImplemented
         if isinstance(a0, list) and (is_iter_fn or name in ("any", "all", "find", "position", "map", "filter", "collect", "count", "next")):
             return self.list_iter(name, args, depth, node)
+        if name == "chain" and len(args) == 2 and isinstance(a0, (Iter, ChainIter, Sym, list)) and isinstance(args[1], (Iter, ChainIter, Sym, list)):
+            mk = lambda x: Iter(x.t) if isinstance(x, Sym) else x  # noqa: E731
+            return ChainIter([mk(a0), mk(args[1])])
+        if isinstance(a0, ChainIter):
+            if name in ("map", "filter", "filter_map"):
+                return ChainIter(a0.parts, a0.ops + ((name, args[1]),))
+            if name == "enumerate":
+                return ChainIter(a0.parts, a0.ops + (("enumerate", None),))
+            if name in ("cloned", "copied", "peekable", "by_ref", "rev", "fuse", "inspect", "into_iter", "iter"):
+                return a0
+            ap = lambda f, xs: self.apply(f, xs, depth, node)  # noqa: E731
+            items = None
+            if name in ("any", "all", "find", "find_map", "position", "for_each", "try_for_each", "next", "last", "count", "collect"):
+                items = self.items_of(a0)
+            if name == "any":
+                return any(self.decide_bool(ap(args[1], [x])) for x in items)
+            if name == "all":
+                return all(self.decide_bool(ap(args[1], [x])) for x in items)
+            if name == "find":
+                for x in items:
+                    if self.decide_bool(ap(args[1], [x])):
+                        return V("Some", (x,))
+                return V("None")
+            if name == "find_map":
+                for x in items:
+                    r = self.force(ap(args[1], [x]), ("Some", "None"))
+                    if r.name == "Some":
+                        return r
+                return V("None")
+            if name == "position":
+                for x in items:
+                    if self.decide_bool(ap(args[1], [x])):
+                        return V("Some", (Sym(("pos", term(a0))),))
+                return V("None")
+            if name in ("next", "last"):
+                return V("Some", (items[0],)) if items else V("None")
+            if name == "for_each":
+                for x in items:
+                    ap(args[1], [x])
+                return UNIT
+            if name == "try_for_each":
+                for x in items:
+                    r = ap(args[1], [x])
+                    r = self.force(r, ("Ok", "Err")) if isinstance(r, Sym) else r
+                    if isinstance(r, V) and r.name in ("Err", "None", "Break"):
+                        return r
+                return V("Ok", (UNIT,))
+            if name in ("count", "collect"):
+                return Sym(("call", name, (term(a0),) + tuple(term(x) for x in items)))
+            return NotImplemented
         if isinstance(a0, Iter) or (isinstance(a0, Sym) and is_iter_fn and (name in self.ITER_ADAPTERS or name in ("any", "all", "find", "find_map", "position", "try_for_each", "for_each", "next", "count",
                                                                                                       "collect", "last", "nth", "fold", "try_fold", "max", "min", "sum"))):
             it = a0 if isinstance(a0, Iter) else Iter(a0.t)
@@ -1341,7 +1435,7 @@ class Evaluator:
                 return Iter(it.src, it.ops + (("enumerate", None),))
             if name in ("cloned", "copied", "peekable", "by_ref", "rev", "fuse", "inspect"):
                 return it
-            if name in ("skip", "take", "step_by", "skip_while", "take_while", "chain", "zip", "flatten", "flat_map", "map_while"):
+            if name in ("skip", "take", "step_by", "skip_while", "take_while", "zip", "flatten", "flat_map", "map_while"):
                 return Iter(("call", name, (it.src,) + tuple(o[0] for o in it.ops) + tuple(term(a) for a in args[1:])))
             ap = lambda f, xs: self.apply(f, xs, depth, node)  # noqa: E731
             if name in ("any", "all", "find", "find_map", "position", "try_for_each", "for_each", "next", "last", "nth"):
